@@ -227,6 +227,24 @@ def dispatcher_paths(prog):
     return out
 
 
+def classifier_inlined(prog, path):
+    """`path`'s body with its pure private classification helpers inlined at CFG level: small loop-free crate
+    functions taking no `&mut` receiver and calling no parser (`fn classify_set(&self, id) -> SetKind`,
+    `fn known_template_kind(&self, id) -> Option<Kind>`). The caller then switches on values whose variants the
+    path-sensitive reachability knows."""
+    def pred(p):
+        hb = prog.bodies.get(p)
+        if hb is None or hb.j.get("pub") or hb.derived or hb.nblocks > 80 or hb.sccs() or hb.kind == "Closure":
+            return False
+        if hb.arg_count >= 1 and hb.local_ty(1).startswith("&mut"):
+            return False
+        for _, _, c2 in hb.calls():
+            if c2 is not None and c2.local and ("::parse" in c2.path or "{closure" in c2.path):
+                return False
+        return True
+    return prog.inlined_body(path, pred, key="classifier")
+
+
 def role_body(prog, path):
     """The body of an entry point / dispatcher with its private helpers inlined at CFG level (mir.inline_calls), so
     that splitting such a function into private pieces does not change what the CFG rules see. Never inlined:
